@@ -9,11 +9,27 @@ props = [json.loads(l) for l in open(os.path.join(ROOT, "properties.jsonl"))]
 TEXT = {
  "C01": ("random multi-client histories through the real in-process server (memdb) with real clients; oracle: no failing sync/attach, byte-identical replicas after a quiescent round, clone==root, final-round-order twin; failures shrink to a replayable program", "property-based testing (rapid): generated programs-as-data, metamorphic twin run"),
  "C02": ("generated histories under snapshot interval/threshold 1..6 with late attachers, cache purge/remove and tail edits on snapshot-fed replicas; differential oracle: every server rebuild == from-scratch log replay, snapshot-fed == change-fed replicas, and (for causally ordered histories) == a no-snapshot twin run", "property-based testing (rapid): differential against log replay + twin run"),
- "C03": ("the identical generated program is run with GC on and GC off; any failing sync/rebuild or content difference is a violation; known finding F2 excluded by construction", "property-based testing (rapid): differential twin (GC on vs off)"),
- "C04": ("recorded request/response history of real clients (incl. lost responses and push-only) checked against the stored log: gap-free 1..N, per-actor clientSeq order, exact delivery to every client, monotone checkpoints", "property-based testing (rapid): history invariant over recorded traffic"),
- "C05": ("every storage event and every response of every sync step of generated programs is faulted once (enumerated per program), with immediate and deferred retry; log uniqueness, convergence and equality with the fault-free twin", "fault enumeration over generated programs (rapid) with a database decorator"),
- "C06": ("clock causality checked at creation time of every local change against harness-tracked applied clocks; stored-log clock invariants; minimum vector of every response bounded by what attached clients acknowledged (tracked client-side)", "property-based testing (rapid): history invariants over recorded traffic"),
+ "C03": ("the identical generated program is run with GC off and GC on (same exclusion decisions); any failing sync/rebuild or content difference is a violation; known findings F2, F48 excluded by construction", "property-based testing (rapid): differential twin (GC on vs off)"),
+ "C04": ("recorded request/response history of real clients (incl. lost responses, push-only) checked against the stored log: gap-free 1..N, per-actor clientSeq order, exact delivery, monotone checkpoints; parallel part under -race with a duplicate-request peer", "property-based testing (rapid): history invariant over recorded traffic; parallel workloads"),
+ "C05": ("every storage event and every response of every sync step of generated programs is faulted once (enumerated per program), with immediate and deferred retry; log uniqueness, convergence and counter equality with the fault-free twin", "fault enumeration over generated programs (rapid) with a database decorator"),
+ "C06": ("clock causality checked at creation time of every local change against harness-tracked applied clocks (log-derived for snapshots); stored-log clock invariants; minimum vector of every response bounded by what attached clients acknowledged (tracked client-side)", "property-based testing (rapid): history invariants over recorded traffic"),
+ "C07": ("model-based: every editing call on non-pristine replicas (tombstones, split nodes, dead slots from a generated two-replica history, snapshot round trips, safe GC) compared with plain Go models (UTF-16 slice + attributes, slice, map, wrap-around ints, XML splice) and index/path round trips; substrate trees vs slice models; small-scope enumerations in thorough", "property-based testing (rapid): reference models + small-scope enumeration"),
+ "C08": ("generated histories with failing Updates (error, panic, schema, size) at drawn positions, remote packs, snapshots, safe GC, undo/redo; clone==root after every step and full pre-state equality around a failed Update", "property-based testing (rapid): invariant + before/after equality"),
+ "C09": ("behavioural round-trip equivalence of every pack/snapshot/vector/stored row produced by generated histories (direct world vs wire world incl. physical node order and a metamorphic tail), structured protobuf mutants and native fuzz targets fed to the 8 decoders: value or error, never panic/crash/hang", "property-based testing (rapid) round trip + structured mutation; native go fuzzing (thorough)"),
+ "C10": ("generated history -> compaction through the real cluster RPC (refused while attached, forced, all-detached, empty content, second compaction) -> stale sync/detach, fresh attach; epoch, content, error code and log-row oracles", "property-based testing (rapid): scenario oracle over generated histories"),
+ "C11": ("words over a 24-letter lifecycle alphabet sent as raw RPCs, exhaustive up to length 4/5 (canonical under renaming) and random 6..10; reference automaton from the lifecycle document decides accept/reject; stored-row, removed-flag, status and GC-probe oracles", "small-scope exhaustive enumeration + rapid, reference automaton"),
+ "C12": ("histories mixing presence writes with edits, attach options, detach/deactivate/late attach and snapshots; replicas agree on exactly the attached actors with each actor's own view; presenceless documents store/return/snapshot nothing", "property-based testing (rapid): convergence + server-side invariants"),
+ "C13": ("all 64 procedures from the service descriptors x generated identifier picks x 12 credentials over raw Connect; victim state byte-identical, no planted secret in any response, admin/cluster credentials enforced, rotated keys dead; owner's calls on a control project for non-vacuity", "property-based testing (rapid) over an enumerated procedure set"),
+ "C14": ("stack model of normalised (before, after) contents over the content alphabet with nested undo/redo on replicas carrying tombstones; robustness stratum; peer application of produced changes; small-scope enumeration in thorough", "property-based testing (rapid): stack model + enumeration"),
+ "C15": ("enumerated sub-scope (406 200 words: 2 clients, one edit each, undo/redo, all interleavings, <=3 syncs) + random strata incl. undo after GC; C01 oracle; F6/F10/F11/F48 excluded by construction", "small-scope exhaustive enumeration + rapid"),
+ "C16": ("generated parallel workloads (clients x documents, background compaction/history views/housekeeping, snapshot storms) under the race detector with a supervising parent process; no race, no deadlock (watchdog + goroutine dump), C01/C04 oracles on the outcome, no goroutine leak", "property-based testing (rapid) of parallel workloads under -race"),
+ "C17": ("generated concurrent subscribe/unsubscribe/publish scripts directly on PubSub under -race with entry/exit stamps; every draining subscriber is told (or closed) about publishes after its Subscribe; no leak, no panic; unsubscribe-vs-subscribe race loop", "property-based testing (rapid) of concurrent scripts under -race"),
+ "C18": ("generated YSON literals (hostile strings, all primitives, counters incl. dedup registers, attributed text/trees) and reachable documents: SetYSON(FromCRDT(d)) round trip, stored-change round trip, textual Unmarshal(Marshal), server revision restore and compaction", "property-based testing (rapid): grammar-based generation + round trips"),
+ "C19": ("upstream's five operation x range matrices as data x both sync orders x optional third snapshot-fed client = 6368 named cases through the real server, exhaustive in both tiers", "exhaustive enumeration of a finite case matrix"),
+ "C20": ("ChangeStore vs ground-truth table with holes, fetcher faults and a covered-set model; LRU caches vs reference models; snapshot cache end-to-end: warm-cache builds and history views == log replay", "property-based testing (rapid): reference models"),
 }
+ENGINE = {"C07": "replica-models", "C08": "replica-models", "C09": "replica-models", "C14": "replica-models", "C18": "replica-models",
+          "C20": "replica-models", "C16": "schedule", "C17": "schedule"}
 checks = []
 for pid in sorted(SPEC):
     spec = SPEC[pid]
@@ -24,25 +40,30 @@ for pid in sorted(SPEC):
         "thorough_cmd": "./check %s --tier thorough" % pid,
         "evidence_file": "evidence/%s.json" % pid,
         "replay_cmd_template": "./check %s --replay {path}" % pid,
-        "engine": spec.get("engine", "world"),
+        "engine": ENGINE.get(pid, "world"),
         "level_claimed": {"category": spec.get("level", "exploration"), "text": text, "design_ref": "DESIGN.md §6 " + pid},
         "level_note": "; ".join(spec.get("assumptions", [])) or "sampling of a generated space against the stated oracle; not exhaustive",
         "technique": tech,
     })
 hooks = subprocess.run(["git", "-C", "/repo", "log", "--format=%h %s"], capture_output=True, text=True).stdout.splitlines()
 hook_commits = [l.split()[0] for l in hooks if "verif hook" in l]
+fix_commits = [l.split()[0] for l in hooks if l.split(" ", 1)[1].startswith("fix:")]
 m = {
  "version": 1,
  "setup_cmd": "./check --setup",
  "hooks": {"guard": "verif", "enable": "the checks build /repo through the harness module with `go test -c -tags verif`",
            "baseline_off_cmd": "cd /repo && go test -vet=off -count=1 ./...", "source_commits": hook_commits, "add_only": True},
  "engines": [
-  {"name": "world", "path": "harness/world + harness/prog", "serves_properties": [c["property_id"] for c in checks if c["engine"] == "world"],
-   "kind_free_text": "real server (memdb) + real clients in one process, harness-owned schedule, transport recorder, database decorator; rapid program generation and shrinking"},
+  {"name": "world", "path": "harness/world + harness/prog + harness/props", "serves_properties": [c["property_id"] for c in checks if c["engine"] == "world"],
+   "kind_free_text": "real server (memdb) + real clients in one process, harness-owned schedule, transport recorder, database decorator; rapid program generation and shrinking; enumerators"},
+  {"name": "replica-models", "path": "harness/c07 c08 c09 c14 c18 c20", "serves_properties": [c["property_id"] for c in checks if c["engine"] == "replica-models"],
+   "kind_free_text": "in-memory replicas exchanging packs through the protobuf converter, reference models, structured mutators, native fuzz targets"},
+  {"name": "schedule", "path": "harness/c16 c17 + harness/kit (supervisor)", "serves_properties": [c["property_id"] for c in checks if c["engine"] == "schedule"],
+   "kind_free_text": "goroutine workloads under the race detector; child-process supervisor turns races/crashes into replayable violations"},
  ],
  "checks": checks,
  "not_applicable": [{"property_id": p["id"], "reason": "check not built yet in this session; will be claimed once its check exists"} for p in props if p["id"] not in SPEC],
- "notes": "exit 0 held / 1 VIOLATION / 2 inconclusive. Known findings: known_findings.json; regression replays: replays/regress/<id>/.",
+ "notes": "exit 0 held / 1 VIOLATION / 2 inconclusive. Known findings: known_findings.json (open: KNOWN-FINDING line + exclusion by construction; fixed: regression replay under replays/regress/<id>/). fix: commits in /repo: " + " ".join(fix_commits) + ". Seeded regressions: seeded/ (all 40 caught, DESIGN.md section 9).",
 }
 json.dump(m, open(os.path.join(ROOT, "MANIFEST.json"), "w"), indent=1)
 print("claimed:", [c["property_id"] for c in checks])
